@@ -16,7 +16,7 @@ import (
 func init() {
 	register(&propDef{
 		id:      "C04",
-		explain: "Structural necessary conditions of 'a client call returns the response to its own request': (R1) in the transport's RoundTrip a connection obtained from AcquireConn is, on every path, closed, released to the pool, or handed to the stream-close closure exactly once; (R2) it is released to the pool only on paths where the response was read without error; (R3) inside the stream-close closure the connection is pooled only under a condition that depends on the body having been read to its end (and on the close decision and the caller's error); (R4) in the pipelining client a work item is given back to the pool by the caller only when it was never queued or its completion was received - never after a timeout while the connection goroutines still hold it; the pipeline writer hands every request it wrote either to the reader queue or completes it with an error and stops; (R5) the response-header fields that closure consults (found by reading the closure and its callees on every run) are never overwritten by a header reset/parse before the body stream of the same Response is closed, in any function of the module. Not decided: interleavings, slow or partial servers, byte-level framing of responses (C03's mirror).",
+		explain: "Structural necessary conditions of 'a client call returns the response to its own request': (R1) in the transport's RoundTrip a connection obtained from AcquireConn is, on every path, closed, released to the pool, or handed to the stream-close closure exactly once; (R2) it is released to the pool only on paths where the response was read without error; (R3) inside the stream-close closure the connection is pooled only under a condition that depends on the body having been read to its end (and on the close decision and the caller's error); (R4) in the pipelining client a work item is given back to the pool by the caller only when it was never queued or its completion was received - never after a timeout while the connection goroutines still hold it; the pipeline writer hands every request it wrote either to the reader queue or completes it with an error and stops; (R5) response-header fields that closure consults live and that the transport did not also capture when it built the closure (recomputed on every run; none on today's tree, where the stream remembers its declared length and the close flag is captured) are never reset before the body stream of the same Response is closed, in any function of the module. Not decided: interleavings, slow or partial servers, byte-level framing of responses (C03's mirror).",
 		run:     runC04,
 	})
 	register(&propDef{
@@ -798,12 +798,56 @@ func closeInputsRule(p *Prog, r *Report, closure *ssa.Function) {
 		}
 	}
 	reads(closure, 0)
+	nread := len(inputs)
+	// a field whose value the transport also captured when it built the closure (a bool computed from the same
+	// accessor before the stream was handed out) is not an input in this sense: resetting the header later only
+	// takes away the second, live look - the captured value still decides. (C10.R5 requires that capture.)
+	var eager []string
+	if par := closure.Parent(); par != nil {
+		idxOf := map[*ssa.FreeVar]int{}
+		for i, fv := range closure.FreeVars {
+			idxOf[fv] = i
+		}
+		for _, b := range par.Blocks {
+			for _, in := range b.Instrs {
+				mc, ok := in.(*ssa.MakeClosure)
+				if !ok || mc.Fn != ssa.Value(closure) {
+					continue
+				}
+				for _, bind := range mc.Bindings {
+					vals := []ssa.Value{bind}
+					if al, ok := bind.(*ssa.Alloc); ok {
+						for _, ref := range *al.Referrers() {
+							if st, ok := ref.(*ssa.Store); ok && st.Addr == ssa.Value(al) {
+								vals = append(vals, st.Val)
+							}
+						}
+					}
+					for _, v := range vals {
+						if !isBool(v.Type()) {
+							continue
+						}
+						for a := range condAtoms(v) {
+							for fv := range inputs {
+								if strings.Contains(strings.ToLower(a), strings.ToLower(fv.Name())) && strings.Contains(a, "Response") {
+									eager = append(eager, fv.Name())
+									delete(inputs, fv)
+								}
+							}
+						}
+					}
+				}
+			}
+		}
+	}
 	var inNames []string
 	for fv := range inputs {
 		inNames = append(inNames, fv.Name())
 	}
 	sort.Strings(inNames)
-	r.Floor("R5", "response header fields the stream-close closure consults ("+strings.Join(inNames, ",")+")", len(inputs), 2)
+	sort.Strings(eager)
+	r.Counts["R5 response header fields the stream-close closure reads"] = nread
+	r.Note("R5: header fields the stream-close closure reads live and that were not also captured when it was built: [%s]; captured as well (a later reset is harmless): [%s]", strings.Join(inNames, ","), strings.Join(eager, ","))
 	if len(inputs) == 0 {
 		return
 	}
@@ -816,6 +860,37 @@ func closeInputsRule(p *Prog, r *Report, closure *ssa.Function) {
 		w := fieldsWritten(p, g, 0, 4)
 		for fv := range inputs {
 			if !coveredBy(w, "header."+fv.Name()) && !coveredBy(w, fv.Name()) {
+				return false
+			}
+		}
+		// ... and to the zero value somewhere below g: a setter that raises a flag (SetConnectionClose) only pushes
+		// the decision towards closing the connection, which is the safe side
+		zeroed := map[*types.Var]bool{}
+		seenF := map[*ssa.Function]bool{}
+		var visit func(f *ssa.Function, d int)
+		visit = func(f *ssa.Function, d int) {
+			if f == nil || seenF[f] || d > 4 || !inModule(f) {
+				return
+			}
+			seenF[f] = true
+			for _, b := range f.Blocks {
+				for _, in := range b.Instrs {
+					switch w := in.(type) {
+					case *ssa.Store:
+						if _, fv := fieldOfAddr(w.Addr); fv != nil && inputs[fv] {
+							if c, isC := w.Val.(*ssa.Const); isC && (c.Value == nil || c.Value.ExactString() == "false" || c.Value.ExactString() == "0") {
+								zeroed[fv] = true
+							}
+						}
+					case ssa.CallInstruction:
+						visit(w.Common().StaticCallee(), d+1)
+					}
+				}
+			}
+		}
+		visit(g, 0)
+		for fv := range inputs {
+			if !zeroed[fv] {
 				return false
 			}
 		}
@@ -941,7 +1016,7 @@ func closeInputsRule(p *Prog, r *Report, closure *ssa.Function) {
 			}
 		}
 	}
-	r.Floor("R5", "calls overwriting the header of a Response", nclob, 3)
+	r.Counts["R5 calls overwriting the header of a Response"] = nclob
 }
 
 // timerArmedWithCheckedDuration (C38.R3): acquirePipelineWork arms the work's
